@@ -221,52 +221,96 @@ func c04Source(c *Ctx) {
 			sites = append(sites, call)
 		}
 	}
-	// header value
-	var hdr *ssa.Call
-	for _, ci := range callsTo(cl, "(net/http.Header).Get") {
-		if s, ok := constString(arg(ci, 0)); ok && s == "X-Forwarded-For" {
-			hdr = ci.(*ssa.Call)
-		}
-	}
-	if hdr == nil {
-		c.Bad(rule, key+" X-Forwarded-For", cl.Pos(), "the X-Forwarded-For header is no longer consulted")
-		return
-	}
-	isHdr := func(v ssa.Value) bool { return strip(v) == ssa.Value(hdr) }
-	isEmpty := func(v ssa.Value) bool { s, ok := constString(v); return ok && s == "" }
-	var siteXFF, sitePeer *ssa.Call
-	for _, s := range sites {
-		v := strip(s.Call.Args[1])
-		if a, ok := loadAddr(v); ok {
-			if ia, ok := a.(*ssa.IndexAddr); ok {
-				idx, isC := constInt(ia.Index)
-				sp, isSplit := strip(ia.X).(*ssa.Call)
-				if isC && idx == 0 && isSplit && calleeName(sp) == "strings.Split" && isHdr(arg(sp, 0)) {
-					if sep, ok := constString(arg(sp, 1)); ok && sep == "," {
-						siteXFF = s
-						ok2, why := mustPass(cl, s, GNeq(isHdr, isEmpty))
-						c.Check(ok2, rule, key+" xff-site", s.Pos(), "clientIp = element 0 of Split(X-Forwarded-For, \",\"), only when the header is non-empty", "XFF site "+why)
-						continue
-					}
-				}
-				c.Bad(rule, key+" xff-site", s.Pos(), "clientIp is taken from a forwarded-for element other than the first, or from a different split")
-				siteXFF = s
-				continue
+	// header value: read in the middleware itself, or in the helper that computes the address
+	hdrOf := func(f *ssa.Function) *ssa.Call {
+		var hdr *ssa.Call
+		for _, ci := range callsTo(f, "(net/http.Header).Get") {
+			if s, ok := constString(arg(ci, 0)); ok && s == "X-Forwarded-For" {
+				hdr = ci.(*ssa.Call)
 			}
 		}
-		if ex, ok := v.(*ssa.Extract); ok && ex.Index == 0 {
-			if sp, ok := ex.Tuple.(*ssa.Call); ok && calleeName(sp) == "net.SplitHostPort" {
-				_, f, ok := fieldLoad(strip(arg(sp, 0)))
-				if ok && f.Name() == "RemoteAddr" {
-					sitePeer = s
-					ok2, why := mustPass(cl, s, GEq(isHdr, isEmpty))
-					c.Check(ok2, rule, key+" peer-site", s.Pos(), "clientIp = host part of r.RemoteAddr, only when X-Forwarded-For is empty", "peer site "+why+": it can override the forwarded address")
+		return hdr
+	}
+	isEmpty := func(v ssa.Value) bool { s, ok := constString(v); return ok && s == "" }
+	// a value site: the function it is computed in, the instruction at which it is handed on
+	// (the SetAttribute call, or the helper's return), and the value
+	type valSite struct {
+		fn *ssa.Function
+		at ssa.Instruction
+		v  ssa.Value
+	}
+	expand := func(s *ssa.Call) []valSite {
+		v := strip(s.Call.Args[1])
+		var call *ssa.Call
+		idx := 0
+		switch x := v.(type) {
+		case *ssa.Call:
+			call = x
+		case *ssa.Extract:
+			call, _ = x.Tuple.(*ssa.Call)
+			idx = x.Index
+		}
+		if call != nil {
+			if h := call.Call.StaticCallee(); h != nil && IsFirstParty(h) && h.Blocks != nil && h.Pkg == cl.Pkg {
+				var out []valSite
+				for _, r := range returnsOf(h) {
+					if idx < len(r.Results) {
+						out = append(out, valSite{h, r, strip(unspill(r.Results[idx]))})
+					}
+				}
+				return out
+			}
+		}
+		return []valSite{{cl, s, v}}
+	}
+	var siteXFF, sitePeer ssa.Instruction
+	hdrSeen := false
+	for _, s := range sites {
+		for _, vs := range expand(s) {
+			hdr := hdrOf(vs.fn)
+			if hdr == nil {
+				continue
+			}
+			hdrSeen = true
+			isHdr := func(v ssa.Value) bool { return strip(v) == ssa.Value(hdr) }
+			v := vs.v
+			if a, ok := loadAddr(v); ok {
+				if ia, ok := a.(*ssa.IndexAddr); ok {
+					idx, isC := constInt(ia.Index)
+					sp, isSplit := strip(ia.X).(*ssa.Call)
+					if isC && idx == 0 && isSplit && calleeName(sp) == "strings.Split" && isHdr(arg(sp, 0)) {
+						if sep, ok := constString(arg(sp, 1)); ok && sep == "," {
+							siteXFF = vs.at
+							ok2, why := mustPass(vs.fn, vs.at, GNeq(isHdr, isEmpty))
+							c.Check(ok2, rule, key+" xff-site", vs.at.Pos(), "clientIp = element 0 of Split(X-Forwarded-For, \",\"), only when the header is non-empty", "XFF site "+why)
+							continue
+						}
+					}
+					c.Bad(rule, key+" xff-site", vs.at.Pos(), "clientIp is taken from a forwarded-for element other than the first, or from a different split")
+					siteXFF = vs.at
 					continue
 				}
 			}
+			if ex, ok := v.(*ssa.Extract); ok && ex.Index == 0 {
+				if sp, ok := ex.Tuple.(*ssa.Call); ok && calleeName(sp) == "net.SplitHostPort" {
+					_, f, ok := fieldLoad(strip(arg(sp, 0)))
+					if ok && f.Name() == "RemoteAddr" {
+						sitePeer = vs.at
+						ok2, why := mustPass(vs.fn, vs.at, GEq(isHdr, isEmpty))
+						c.Check(ok2, rule, key+" peer-site", vs.at.Pos(), "clientIp = host part of r.RemoteAddr, only when X-Forwarded-For is empty", "peer site "+why+": it can override the forwarded address")
+						continue
+					}
+				}
+			}
+			c.Bad(rule, key+" other-site", vs.at.Pos(), "clientIp is set from something other than X-Forwarded-For[0] or the TCP peer host")
 		}
-		c.Bad(rule, key+" other-site", s.Pos(), "clientIp is set from something other than X-Forwarded-For[0] or the TCP peer host")
 	}
+	if !hdrSeen {
+		c.Bad(rule, key+" X-Forwarded-For", cl.Pos(), "the X-Forwarded-For header is no longer consulted")
+		return
+	}
+	hdrCl := hdrOf(cl)
+	isHdr := func(v ssa.Value) bool { return hdrCl != nil && strip(v) == ssa.Value(hdrCl) }
 	if siteXFF == nil {
 		c.Bad(rule, key+" xff-site", cl.Pos(), "no site sets clientIp from X-Forwarded-For")
 	}
